@@ -234,6 +234,16 @@ def locate(case, real, alts, layout):
     return [("%s:end-of-body" % kind, "trailing-bytes" if len(rb) > len(sb) else "differs")]
 
 
+def param_flags(case, real, layout):
+    """the <flags> word of <query_parameters> in an encoded frame (0 when the layout has none)"""
+    pos = 9 if case["pv"] >= 3 else 8
+    for name, ln in layout:
+        if name == "params.flags":
+            return int.from_bytes(real[pos:pos + ln], "big")
+        pos += ln
+    return 0
+
+
 def judge_request(state):
     """None when the real encoder agrees with the state; otherwise (group keys, description, got)."""
     case, expect = state["c"], state["expect"]
